@@ -2,7 +2,7 @@
 import ast
 
 from ..core import Rule, AnalysisError
-from ..rules import crash, scoped, sC41, s4C41
+from ..rules import crash, scoped, sC41, s4C41, s8C41, dD13
 from ..engine import tables
 from ..engine.pyindex import walk_no_nested
 
@@ -46,6 +46,20 @@ NOT_DECIDED = ('the precedence of header / command line / cythonize options as f
                'whole mappings inherited from a scope (IterationTransform._transform_indexable_iteration builds the directives of its bounds-check-free target assignment from env.directives: listed as info), '
                'nor SimpleAssignmentTypeInferer (infer_types is read per scope by design); C41-MERGE does not decide other ways code could travel between modules (fused / utility code copied by TreeFragment).')
 
+# ---- eighth round (sa/rules/s8C41.py) ----------------------------------------------------------------------------------------------------------------
+TECHNIQUE += ('; (round 8) whole-program may-alias propagation of the process-wide directive tables of Options (path-sensitive per function, through locals, self fields, '
+              'record entries, return values and arguments of resolved calls) with every in-place write through an alias as the sink')
+DECIDES += (' ROUND 8 - C41-SHARED: no in-place write (item store / del, update / setdefault / pop / clear / append ..., augmented assignment) reaches one of the module-level '
+            'directive tables of Options.py (_directive_defaults = what get_directive_defaults() returns, directive_types, directive_scopes, immediate_decorator_directives) '
+            'through a local, a self field, a record entry published by self.__dict__.update, a return value or a parameter of a resolved callee, on any path; '
+            'C41-PRIVATE: the module-level mapping InterpretCompilerDirectives.__init__ stores in self.directives is a fresh object on every path (neither such a table nor a '
+            'mapping handed in by the caller). C41-LAYER now resolves local aliases of the layers and a mapping built by a helper method.')
+NOT_DECIDED += (' ROUND 8 - C41-SHARED does not follow the table through attributes of other objects (`context.compiler_directives[...] = v` outside the class that stored it), '
+                'containers other than a local record with constant keys, closures, or unresolved callees (listed as info); shallow copies sharing list-typed directive values are not decided.')
+
+EXEMPT = {('C41-SHARED', 'Options.get_directive_defaults:_directive_defaults'):
+          'the accessor folds the legacy module-level options (Options.<name> = value set by the user for the whole process) into the defaults table: process-wide by design, '
+          'no per-file or per-compilation value is involved'}
 
 MUTATIONS = [
     # (file, edit, expected rule / observed) -- tried on /tmp/strengthen/G9/scr
@@ -143,4 +157,5 @@ def run(ctx):
     return [scoped.rule_V3_attr(ctx), rule_tabkeys(ctx), crash.rule_L4(ctx), crash.rule_L5(ctx), rule_scoped_reads(ctx),
             sC41.rule_UDEF(ctx), sC41.rule_RUN(ctx), sC41.rule_LAYER(ctx),
             sC41.rule_BOOLTAB(ctx), sC41.rule_SCOPE(ctx), sC41.rule_CONTENTS(ctx), sC41.rule_INHERIT(ctx), sC41.rule_HEADER(ctx), sC41.rule_DECORDER(ctx), sC41.rule_CTX(ctx), sC41.rule_UNKNOWN(ctx),
-            s4C41.rule_ENVREAD(ctx), s4C41.rule_MERGE(ctx)]
+            s4C41.rule_ENVREAD(ctx), s4C41.rule_MERGE(ctx), s8C41.rule_SHARED(ctx), s8C41.rule_PRIVATE(ctx),
+            dD13.rule_DEFEMIT(ctx)]      # C41-DEFEMIT (rules/dD13.py), armed after the repair 02f8797df
